@@ -15,7 +15,7 @@ PROPS = {
                 "distinct = distinct (op,a,b); every case is non-trivial (each exercises one arithmetic function on a fresh pair).",
         "assumptions": ["object sizes reach the counters through NewCount32 (see DESIGN §9 F8/F7)"],
     },
-    "C12_pending": {
+    "C12": {
         "level_text": "Exact integer model of FormatNumber (float64 conversion, division, %.Nf) in Lean; theorems on prefix choice, exactness below the first prefix, digit counts; every observed rendering judged against the half-unit/prefix/length/monotonicity specification.",
         "level_note": "Trusted: Lean kernel; the float model (validated string-exactly against Go on every run); prefix tables regenerated from counts/human.go.",
         "technique": "Lean 4 proof + differential correspondence",
